@@ -315,9 +315,17 @@ def c03(tier, seed):
         t2 = session("c03-tamper-p256", TamperBudget=1, PubLens=[65], InitPads=[False], Variants=["tr"], TrafficMode="short",
                      PskMode="single", PatSet=["NN", "XX", "IK", "KK", "N", "X", "NX1", "I1K1"])
         r2 = replay("C03", t2, seed, 1)
-        tl, rl = [t, t2], [r, r2]
+        t3 = session("c03-tamper-ring", TamperBudget=1, PubLens=[32], InitPads=[True, False], Variants=["tr"],
+                     TrafficMode="short", Profiles=["zero", "small"], BufModes=["exact"],
+                     PatSet=["NN", "XX", "IK", "N", "KK", "NX1", "X1X1"])
+        r3 = replay("C03", t3, seed, 1, backends="mix-sample")
+        tl, rl = [t, t2, t3], [r, r2, r3]
     else:
         tl, rl = [], []
+        t3 = session("c03-tamper-ring", TamperBudget=1, PubLens=[32], InitPads=[True, False], Variants=["tr"],
+                     TrafficMode="short", Profiles=["zero", "small"], BufModes=["exact", "big"])
+        rl.append(replay("C03", t3, seed, 1, backends="mix-sample", threads=14))
+        tl.append(t3)
         for i, grp in enumerate([BASE[:12], BASE[12:24], BASE[24:]]):
             t = session(f"c03-tamper-{i}", TamperBudget=1, PatSet=grp, PskMode="single", InitPads=[False],
                         Variants=["tr"], TrafficMode="short")
